@@ -1,7 +1,7 @@
 """C07 — identifiers bind to the innermost preceding declaration in scope.
 Scopes.tla: one name declared at any admissible subset D of nine scope levels (global, template parameter, template
-local, function parameter, function block, nested block, iteration binder, quantifier binder, select binder), 21 use
-sites described by their enclosing scope chain and by which declarations textually precede them; LexBind (the statement)
+local, function parameter, function block, nested block, iteration binder, quantifier binder, select binder), 29 use
+sites (21 in expressions, 8 inside types; harness/dump.hpp exports the expression trees written inside types) described by their enclosing scope chain and by which declarations textually precede them; LexBind (the statement)
 vs ImplBind (the builder's frame walk); TLC checks Agree on the whole universe and exports it. For every D a model holding
 every site is rendered; each occurrence is written `n + <site id>` so that it can be found in the parsed trees, and every
 level declares n with its own type int[k,k], so the symbol the occurrence was bound to identifies the level."""
@@ -10,6 +10,13 @@ import vf, xmlgen
 
 K = {"global": 10, "tparam": 11, "tlocal": 12, "fparam": 13, "fblock": 14, "nested": 15, "iter": 16, "quant": 17, "select": 18}
 LEVEL = {v: k for k, v in K.items()}
+
+
+# sites at which the builder's frame stack lacks a lexically enclosing scope (Scopes.tla: SH): key suffix, what, example
+DETACHED = {130: ("later-function-parameter-type-does-not-see-earlier-parameter", "an identifier in the type of a function parameter is not looked up among the function's earlier parameters",
+                  "`int f(int n, int[0,n] y)` binds the bound to an outer n or reports it unknown"),
+            131: ("later-template-parameter-type-does-not-see-earlier-parameter", "an identifier in the type of a template parameter is not looked up among the template's earlier parameters",
+                  "`process T(const int n, int[0,n] x)` binds the bound to a global n or reports it unknown")}
 
 
 def render(D, keep, queries=True):
@@ -22,23 +29,25 @@ def render(D, keep, queries=True):
     if "global" in D:
         g.append("const int[10,10] n = 10;")
     g.append(use(118, "const int u8 = %s;"))
+    g.append(use(133, "int[0, %s] u33;"))
     qn = "n" if "quant" in D else "zq"
     l = [use(101, "int u1 = %s;")]
     if "tlocal" in D:
         l.append("const int[12,12] n = 12;")
     l.append(use(102, "int u2 = %s;"))
-    f = ["void f(%s) {" % ("int[13,13] n" if "fparam" in D else "int zz"), use(103, "    int q3 = %s;")]
+    l.append(use(134, "int arr34[%s];"))
+    f = ["void f(%s, %s) {" % ("int[13,13] n" if "fparam" in D else "int zz", use(130, "int[0, %s] p30")), use(103, "    int q3 = %s;")]
     if "fblock" in D:
         f.append("    int[14,14] n = 14;")
-    f += [use(104, "    int q4 = %s;"), "    {", use(105, "        int q5 = %s;")]
+    f += [use(104, "    int q4 = %s;"), use(132, "    int[0, %s] q32;"), "    {", use(105, "        int q5 = %s;")]
     if "nested" in D:
         f.append("        int[15,15] n = 15;")
     f += [use(106, "        int q6 = %s;"), "        w = 0;", "    }", use(107, "    w = %s;"),
-          "    for (%s : int[16,16]) { %s }" % ("n" if "iter" in D else "zi", use(108, "w = %s;")), use(109, "    w = %s;"),
-          "    bb = forall (%s : int[17,17]) %s;" % (qn, use(110, "%s > 0")), "}"]
-    T = {"name": "T", "params": ("const int[11,11] n, const int m" if "tparam" in D else "const int m"), "decl": "\n".join(l + f),
+          "    for (%s : int[16,16]) { %s for (z37 : int[0, %s]) { w = 1; } }" % ("n" if "iter" in D else "zi", use(108, "w = %s;"), use(137)), use(109, "    w = %s;"),
+          "    bb = forall (%s : int[17,17]) %s && forall (z36 : int[0, %s]) z36 >= 0;" % (qn, use(110, "%s > 0"), use(136)), "}"]
+    T = {"name": "T", "params": ("const int[11,11] n, " if "tparam" in D else "") + use(131, "const int[0, %s] m"), "decl": "\n".join(l + f),
          "locations": [{"id": "id0", "name": "A", "inv": use(115, "%s > 0")}], "init": "id0",
-         "edges": [{"src": "id0", "dst": "id0", "select": "%s : int[18,18]" % ("n" if "select" in D else "zs"),
+         "edges": [{"src": "id0", "dst": "id0", "select": "%s : int[18,18], s35 : int[0, %s]" % ("n" if "select" in D else "zs", use(135)),
                     "guard": "%s && forall (%s : int[17,17]) %s" % (use(111, "%s > 0"), qn, use(113, "%s > 0")), "assign": use(112, "w = %s")},
                    {"src": "id0", "dst": "id0", "guard": use(114, "%s > 0")}]}
     T2 = {"name": "T2", "locations": [{"id": "id1", "name": "B"}], "init": "id1", "edges": [{"src": "id1", "dst": "id1", "guard": use(116, "%s > 0")}]}
@@ -100,7 +109,7 @@ def tlevel_of(ty):
 
 
 SUBST_MODEL = {"decl": "const int c = 7;",
-               "templates": [{"name": "T", "params": "const int a, const int b", "decl": "int[0,a] va; int[0,b] vb;", "locations": [{"id": "id0", "name": "A"}], "init": "id0", "edges": []}],
+               "templates": [{"name": "T", "params": "const int a, const int b", "decl": "int[0,a] va; int[0,b] vb; typedef int[0,a] ta_t; ta_t vta; typedef int[0,b] tb_t; tb_t vtb; typedef struct { int[0,a] fa; int[0,b] fb; } rec_t; rec_t vr; int[0,b] arr[ta_t];", "locations": [{"id": "id0", "name": "A"}], "init": "id0", "edges": []}],
                "system": "D = T(3,4);\nQ(const int c) = T(1, c);\nR = Q(2);\nQ2(const int e) = Q(e);\nR2 = Q2(5);\nQ3(const int g, const int h) = T(h, g);\nQ4(const int k) = Q3(k, 6);\nR4 = Q4(8);\nsystem D, R, R2, R4;"}
 
 
@@ -120,9 +129,29 @@ def find_dot(x):
     return None
 
 
+def member_type(props, member):
+    """type of the left operand of the `== 0` comparison of the query"""
+    def find_eq(x):
+        if isinstance(x, dict):
+            if x.get("k") == "EQ" and x.get("c"):
+                return x["c"][0]
+            for v in x.values():
+                f = find_eq(v)
+                if f:
+                    return f
+        elif isinstance(x, list):
+            for v in x:
+                f = find_eq(v)
+                if f:
+                    return f
+        return None
+    n = find_eq(props)
+    return None if n is None else n.get("ts") or n.get("xt")
+
+
 def walk(x, found):
     if isinstance(x, dict):
-        if x.get("k") == "PLUS" and len(x.get("c", [])) == 2 and isinstance(x["c"][1], dict) and x["c"][1].get("k") == "CONSTANT" and 101 <= x["c"][1].get("v", 0) <= 121:
+        if x.get("k") == "PLUS" and len(x.get("c", [])) == 2 and isinstance(x["c"][1], dict) and x["c"][1].get("k") == "CONSTANT" and 101 <= x["c"][1].get("v", 0) <= 137:
             found.setdefault(x["c"][1]["v"], []).append(x["c"][0])
         for v in x.values():
             walk(v, found)
@@ -149,6 +178,42 @@ def level_of(node):
     return "other:" + str(node.get("k"))
 
 
+def frames_part(c, tier):
+    """Frames.tla: every history of symbol-table operations up to a bound, invariants LatestWins / Innermost / RemoveExact by TLC,
+    every behaviour executed on real frame_t objects with the observation compared after each step"""
+    quick = tier == "quick"
+    vf.build_lib("asan")
+    vf.build_harness("replay_frame", "asan")
+    mc = vf.run_tlc("Frames", "Frames.cfg", c.run_dir, timeout=1500, workers=8, keep_out=False)
+    c.add_tlc("Frames", mc, "LatestWins, Innermost, RemoveExact on every history of 4 symbol-table operations (3 frames, names a / b / anonymous); behaviours exported")
+    cases = [e for e in mc.emitted if "ops" in e]
+    if not quick:
+        deep = vf.run_tlc("Frames", "Frames_deep.cfg", c.run_dir, timeout=3000, workers=12, keep_out=False)
+        c.add_tlc("Frames(deep)", deep, "the same invariants on every history of 5 operations (not exported)")
+        sim = vf.run_tlc("Frames", "Frames_sim.cfg", c.run_dir, timeout=1500, workers=4, keep_out=False, simulate=3000, depth=8, seed=c.seed)
+        c.add_tlc("Frames(sim)", sim, "random histories of 7 operations over 4 symbols, exported")
+        cases += [e for e in sim.emitted if "ops" in e]
+    if not cases:
+        raise vf.MachineryError("Frames.tla exported no behaviour")
+    jobs = [{"id": "fr%d" % k, "cases": cases[i:i + 4000], "timeout": 300} for k, i in enumerate(range(0, len(cases), 4000))]
+    res = vf.run_jobs(jobs, c.run_dir, variant="asan", harness="replay_frame", name="frames")
+    nsteps = 0
+    for j in jobs:
+        r = res[j["id"]]
+        if r.get("outcome", "return") not in ("return",) or "cases" not in r:
+            c.finding("c07:frames:crash", "executing symbol-table histories on frame_t ended with %s" % json.dumps({k: v for k, v in r.items() if k != "bad"})[:300], {"job": j["id"], "first_case": j["cases"][0]})
+            continue
+        nsteps += r["steps"]
+        for b in r["bad"]:
+            names = [o["op"] for o in b.get("ops", [])][:b.get("step", 0)]
+            c.finding("c07:frames:%s:%s" % (b["what"].split(" ")[0], "-".join(names)),
+                      "after the symbol-table operations %s the real frames differ from Frames.tla (%s): spec %s, real %s" % (
+                          [(o["op"], o["f"], o["g"], o["n"], o["u"]) for o in b.get("ops", [])][:b.get("step", 0)], b["what"], json.dumps(b.get("spec")), json.dumps(b.get("real"))), b)
+    c.cov["symbol_table_histories_replayed"] = len(cases)
+    c.cov["symbol_table_steps_compared"] = nsteps
+    return nsteps
+
+
 def run(tier):
     c = vf.Check("C07", tier)
     vf.build_lib("plain")
@@ -163,13 +228,16 @@ def run(tier):
     c.cov["spec_substitution_agree"] = head2["substagree"]
     c.cov["spec_substitution_depends_on_symbol_order"] = head2["ordersensitive"]
     c.cov["spec_agree"] = head["agree"]
-    if not head["agree"]:
-        print("NOTE property=C07 Scopes.tla: the frame walk and the lexical definition disagree on some case (see the module)")
+    c.cov["spec_agree_where_stack_is_lexical_chain"] = head["agreeonstack"]
+    c.cov["spec_predicted_disagreements"] = head["ndisagree"]
+    if not head["agreeonstack"]:
+        print("NOTE property=C07 Scopes.tla: the frame walk and the lexical definition disagree on a site whose frame stack is its lexical chain (see the module)")
     jobs = []
     for n, cs in enumerate(cases):
         exp = {s["id"]: s["bind"] for s in cs["sites"]}
         allsites = set(exp) - {120, 121}
-        known = {s for s in allsites if exp[s] != "unknown"}
+        impl = {s["id"]: s["impl"] for s in cs["sites"]}
+        known = {s for s in allsites if exp[s] != "unknown" and impl[s] != "unknown" and s < 130}       # the query models are analysed: no type sites (bounds must be compile-time constants)
         jobs.append({"id": "a%d" % n, "entry": "xml_buffer", "text": xmlgen.render_xml(render(cs["d"], allsites)), "trees": True, "analysis": False})
         for sid, q in ((120, "E<> n + 120 > 0"), (121, "E<> P.n + 121 > 0")):      # one job per query: a rejected query leaves an error in the document
             jobs.append({"id": "q%d_%d" % (sid, n), "entry": "xml_buffer", "text": xmlgen.render_xml(render(cs["d"], known)), "queries": [q], "query_builder": "property", "structure": False})
@@ -179,13 +247,16 @@ def run(tier):
         jobs.append({"id": "t%d" % n, "entry": "xml_buffer", "text": xmlgen.render_xml(render_types(cs["td"], bound)), "analysis": False})
         for x in sorted(set(exp) - bound):       # a use without a type name in scope: one model per site, it has to be rejected
             jobs.append({"id": "tu%d_%d" % (n, x), "entry": "xml_buffer", "text": xmlgen.render_xml(render_types(cs["td"], bound | {x})), "analysis": False})
-    sq = ["E<> %s.%s == 0" % (e["proc"], v) for e in scases for v in ("va", "vb")]
+    # the same members reached directly, through a template-local type name, as record fields and as array element / index types
+    MEMBERS = [("va", "va", "va == 0"), ("vb", "vb", "vb == 0"), ("vta", "va", "vta == 0"), ("vtb", "vb", "vtb == 0"), ("vr.fa", "va", "vr.fa == 0"), ("vr.fb", "vb", "vr.fb == 0"), ("arr[0]", "vb", "arr[0] == 0")]
+    sq = ["E<> %s.%s" % (e["proc"], m[2]) for e in scases for m in MEMBERS]
     jobs.append({"id": "subst", "entry": "xml_buffer", "text": xmlgen.render_xml(SUBST_MODEL), "queries": sq, "query_builder": "tiga", "query_types": True, "structure": False})
     res = vf.run_jobs(jobs, c.run_dir, variant="plain", name="c07")
     nsites = 0
     nontrivial = 0
     for n, cs in enumerate(cases):
         exp = {s["id"]: s["bind"] for s in cs["sites"]}
+        impl_of = {s["id"]: s["impl"] for s in cs["sites"]}
         D = sorted(cs["d"])
         ra = res["a%d" % n]
         rep = {"declared_at": D, "xml": jobs[3 * n]["text"]}
@@ -204,7 +275,10 @@ def run(tier):
             got = sorted({level_of(x) for x in nodes}) if nodes else ["not-found"]
             want = exp[sid]
             nontrivial += want not in ("unknown",) and len(D) > 1
-            if got != [want]:
+            if got != [want] and sid in DETACHED and got == [impl_of[sid]]:
+                c.finding("c07:site%d:%s" % (sid, DETACHED[sid][0]), "%s: with n declared at %s the occurrence binds to %s instead of %s (the behaviour Scopes!ImplBind predicts for the detached `params` frame), e.g. %s" % (
+                    DETACHED[sid][1], D, got[0], want, DETACHED[sid][2]), dict(rep, site=sid, expected=want, got=got))
+            elif got != [want]:
                 c.finding("c07:site%d:%s->%s" % (sid, want, got[0]), "with n declared at %s, the occurrence at site %d binds to %s; the innermost preceding declaration in scope is %s" % (D, sid, got, want),
                           dict(rep, site=sid, expected=want, got=got))
             if want == "unknown":
@@ -258,16 +332,17 @@ def run(tier):
         raise vf.MachineryError("substitution model failed: %s" % json.dumps(rs)[:300])
     k = 0
     for e in scases:
-        for v in ("va", "vb"):
+        for member, v, _ in MEMBERS:
             q = rs["queries"][k]
             k += 1
             nsites += 1
             nontrivial += 1
-            ts = find_dot(q.get("props"))
+            ts = member_type(q.get("props"), member)
             want = '(range (int) "0" "%d")' % e[v]
-            if q.get("errors") or ts != want:
-                c.finding("c07:qualified:%s.%s" % (e["proc"], v), "%s.%s has type %s in a query (errors %s); with the process' arguments substituted it is %s" % (e["proc"], v, ts, [x["msg"] for x in q.get("errors", [])][:2], want),
+            if q.get("errors") or ts is None or want not in ts or re.search(r'"[a-z]\w*"', ts):
+                c.finding("c07:qualified:%s.%s" % (e["proc"], member), "%s.%s has type %s in a query (errors %s); with the process' arguments substituted it is %s" % (e["proc"], member, ts, [x["msg"] for x in q.get("errors", [])][:2], want),
                           {"model": SUBST_MODEL, "query": sq[k - 1]})
+    nsites += frames_part(c, tier)
     c.cov["traces_validated_against_impl"] = nsites
     c.cov["evaluations"] = nsites
     c.cov["distinct_nontrivial"] = nontrivial
